@@ -20,8 +20,9 @@ RULE = ("Homogeneous domain: 1-4 distinct equilibria of a pool of 17 acid/base/c
         "one-equilibrium systems with chempy._equilibrium.solve_equilibrium.  'precipitation': one salt "
         "MX(s) = M + X (NaCl, AgCl, BaSO4, KNO3; CaF2 in 'precipitation_1_2'), Ksp = 10^U(-4, 0), initial amounts "
         "10^U(-3, 1) or zero in five shapes, chains (Lin,), (Log,), (Log, Lin) with rref_preserv=True, tol=1e-12 as in "
-        "the repository's test, the reaction written as dissolution (K = Ksp) or as precipitation (K = 1/Ksp).  Non-trivial = at least two equilibria sharing a species and success reported, or a "
-        "precipitation case that ends with solid present; distinct by case digest.")
+        "the repository's test, the reaction written as dissolution (K = Ksp) or as precipitation (K = 1/Ksp).  "
+        "Non-trivial = at least two equilibria sharing a species and success reported, or a precipitation case that "
+        "ends with solid present; distinct by case digest.")
 ASSUMPTIONS = ["vlib/gen_c07.py COMP table and pool reactions (asserted balanced at import)",
                "the oracle evaluates Q and the totals of the returned float64 vector with mpmath (30 digits), so the "
                "judgement itself adds no rounding",
@@ -279,7 +280,8 @@ def check_precip(case, ctx):
     import mpmath
     M = G.ModelPrecip(case)
     chain = case["chain"]
-    ctx.label("chain:" + chain, "shape:" + case["shape"], M.solid, "written_as_precipitation" if M.reverse else "written_as_dissolution")
+    ctx.label("chain:" + chain, "shape:" + case["shape"], M.solid,
+              "written_as_precipitation" if M.reverse else "written_as_dissolution")
     es, subs = G.build_eqsys(M.species, [M.rxn], [M.K])
     out = run_chain(es, M.c0, chain, rref_preserv=True, tol=1e-12)
     if is_err(out):
